@@ -157,10 +157,14 @@ def takeUnits : Nat → List Seg → List Seg
     else if s.1 = 1 then (if k = 0 then [] else s :: takeUnits (k - 1) t)
     else s :: takeUnits k t
 
+/-- The AS_SET and AS_SEQUENCE segments of a path: the only ones valid in an AS4_PATH (RFC 6793 §3); a
+    receiver discards the confederation segments of an AS4_PATH (RFC 6793 §6). -/
+def plainSegs (l : List Seg) : List Seg := l.filter (fun s => s.1 == 1 || s.1 == 2)
+
 /-- AS path information from AS_PATH and AS4_PATH received from a 2-byte speaker. -/
 def merge6793 (as2 as4 : List Seg) : List Seg :=
   if pathCount as2 < pathCount as4 then as2
-  else takeUnits (pathCount as2 - pathCount as4) as2 ++ as4
+  else takeUnits (pathCount as2 - pathCount as4) as2 ++ plainSegs as4
 
 def asTrans : Nat := 23456
 
